@@ -26,7 +26,8 @@ EXPLANATION = (
     ' (R7) the manifest parsers drop no entry; (R8) the checksum functions hash every byte and the verify functions return computed == expected.'
     ' (R11) who may produce a recorded checksum / size: the function that wrote the file, a copy, or the manifest decoder - never a later re-hash of stored bytes.'
     ' (R12) the metadata decoder reads every key the encoder writes with a subscript; (R13) no sync_interval on the Avro writers. R3: the de-duplication key is the path itself; R4: verify_checksums is handed on unchanged (None stays None) at every hop.'
-    ' (R15) recovery orders versions as integers (C10.R11); R4 decides the environment default by scenario (unset / true / 1 / yes / on -> ON).')
+    ' (R15) recovery orders versions as integers (C10.R11); R4 decides the environment default by scenario (unset / true / 1 / yes / on -> ON).'
+    ' R3: a path listed twice keeps its FIRST entry; (R16) the paths of manifest / manifest-list entries are read with a subscript (a missing key fails the read, it is not None).')
 NOT_DECIDED = ("damage classes that still parse (Avro cut at a block boundary, a sibling file that is valid JSON); "
                "pyarrow's behaviour on corrupt pages when verification is off")
 
